@@ -172,4 +172,118 @@ theorem covE_whitened (p : Nat) (rows W : List (List α)) (hn : rows ≠ [])
   rw [list_sum_mul_left, div_eq_mul_inv]
   ring
 
+/-! ### the PCA branch of `Whitener::fit`: what `pcaAssemble` makes of the SVD of the centred data -/
+
+section pca
+variable [Transc α]
+
+theorem getD_map_zero (l : List α) (g : α → α) (hg : g 0 = 0) (i : Nat) :
+    (l.map g).getD i 0 = g (l.getD i 0) := by
+  simp only [List.getD_eq_getElem?_getD, List.getElem?_map]
+  cases h : l[i]? <;> simp [hg]
+
+/-- entry `(a, i)` of the PCA whitening matrix: `Vᵀ[a][i] * (sqrt(n-1) / max(s_a, floor))` -/
+theorem pcaAssemble_entry (floor : α) (n : Nat) (s : List α) (vt : List (List α)) (a i : Nat)
+    (ha : a < vt.length) (hs : s.length = vt.length) :
+    wE (pcaAssemble floor n s vt) a i =
+      wE vt a i * (Transc.sqrt (((n - 1 : Nat)) : α) / maxS (s.getD a 0) floor) := by
+  have hsa : a < s.length := hs ▸ ha
+  unfold wE pcaAssemble
+  have h1 : (List.zipWith (fun row sv => List.map (fun v => v * (Transc.sqrt (((n - 1 : Nat)) : α) / maxS sv floor)) row) vt s).getD a [] =
+      (vt.getD a []).map (fun v => v * (Transc.sqrt (((n - 1 : Nat)) : α) / maxS (s.getD a 0) floor)) := by
+    simp only [List.getD_eq_getElem?_getD, List.getElem?_zipWith, List.getElem?_eq_getElem ha, List.getElem?_eq_getElem hsa]
+    simp
+  rw [h1, getD_map_zero _ _ (by simp)]
+
+theorem pcaAssemble_length (floor : α) (n : Nat) (s : List α) (vt : List (List α)) (hs : s.length = vt.length) :
+    (pcaAssemble floor n s vt).length = vt.length := by
+  unfold pcaAssemble; simp [hs]
+
+theorem pcaAssemble_row_length (floor : α) (n : Nat) (s : List α) (vt : List (List α)) (p : Nat)
+    (hvt : ∀ w ∈ vt, w.length = p) : ∀ w ∈ pcaAssemble floor n s vt, w.length = p := by
+  intro w hw
+  unfold pcaAssemble at hw
+  obtain ⟨i, hi, rfl⟩ := List.getElem_of_mem hw
+  simp only [List.getElem_zipWith, List.length_map]
+  exact hvt _ (List.getElem_mem _)
+
+/-- **what the PCA branch delivers**, from the contract of the SVD of the centred data (Gram identity
+`(X-μ)ᵀ(X-μ) = V diag(s²) Vᵀ`, orthonormal rows of `Vᵀ`): `W cov(X) Wᵀ` is diagonal with entries
+`s_a² / max(s_a, floor)²`. -/
+theorem pca_WSWt (hsq : SqrtContract α) (floor : α) (hf : 0 < floor) (p : Nat) (rows : List (List α))
+    (s : List α) (vt : List (List α)) (h2 : 2 ≤ rows.length) (hs : s.length = vt.length)
+    (hgram : ∀ i j, i < p → j < p →
+      (rows.map fun r => (r.getD i 0 - meanCol (col rows i)) * (r.getD j 0 - meanCol (col rows j))).sum =
+        ∑ k ∈ Finset.range vt.length, wE vt k i * (s.getD k 0 * s.getD k 0) * wE vt k j)
+    (horth : ∀ a b, a < vt.length → b < vt.length →
+      ∑ i ∈ Finset.range p, wE vt a i * wE vt b i = if a = b then 1 else 0)
+    (a b : Nat) (ha : a < vt.length) (hb : b < vt.length) :
+    ∑ i ∈ Finset.range p, ∑ j ∈ Finset.range p,
+        wE (pcaAssemble floor rows.length s vt) a i * covE rows i j *
+          wE (pcaAssemble floor rows.length s vt) b j =
+      if a = b then (s.getD a 0 * s.getD a 0) / (maxS (s.getD a 0) floor * maxS (s.getD a 0) floor) else 0 := by
+  have hm : ((rows.length : α) - 1) = ((rows.length - 1 : Nat) : α) := by
+    rw [Nat.cast_sub (by omega)]; simp
+  have hmpos : (0 : α) < ((rows.length - 1 : Nat) : α) := by
+    exact_mod_cast (by omega : 0 < rows.length - 1)
+  have hcc := (hsq _ hmpos.le).1
+  have hdpos : ∀ k, 0 < maxS (s.getD k 0) floor := by
+    intro k; unfold maxS; split
+    · exact hf
+    · rename_i h; exact lt_of_lt_of_le hf (not_lt.mp h)
+  generalize hcdef : Transc.sqrt (((rows.length - 1 : Nat)) : α) = c at hcc
+  generalize hmdef : ((rows.length - 1 : Nat) : α) = m at hcc hmpos hm
+  let f : Nat → Nat → Nat → α := fun i j k =>
+    (wE vt a i * wE vt k i) * ((s.getD k 0 * s.getD k 0) * (c / maxS (s.getD a 0) floor) *
+      (c / maxS (s.getD b 0) floor) / m) * (wE vt k j * wE vt b j)
+  have h1 : (∑ i ∈ Finset.range p, ∑ j ∈ Finset.range p,
+        wE (pcaAssemble floor rows.length s vt) a i * covE rows i j *
+          wE (pcaAssemble floor rows.length s vt) b j) =
+      ∑ i ∈ Finset.range p, ∑ j ∈ Finset.range p, ∑ k ∈ Finset.range vt.length, f i j k := by
+    apply Finset.sum_congr rfl; intro i hi; apply Finset.sum_congr rfl; intro j hj
+    rw [pcaAssemble_entry floor rows.length s vt a i ha hs, pcaAssemble_entry floor rows.length s vt b j hb hs,
+      hcdef]
+    unfold covE
+    have hdiv : ∀ g : Nat → α, (∑ k ∈ Finset.range vt.length, g k) / m =
+        ∑ k ∈ Finset.range vt.length, g k * m⁻¹ := by
+      intro g; rw [div_eq_mul_inv, Finset.sum_mul]
+    rw [hgram i j (Finset.mem_range.mp hi) (Finset.mem_range.mp hj), hm, hdiv, Finset.mul_sum, Finset.sum_mul]
+    apply Finset.sum_congr rfl; intro k _
+    simp only [f]; ring
+  have h2' : (∑ i ∈ Finset.range p, ∑ j ∈ Finset.range p, ∑ k ∈ Finset.range vt.length, f i j k) =
+      ∑ k ∈ Finset.range vt.length, ∑ i ∈ Finset.range p, ∑ j ∈ Finset.range p, f i j k := by
+    have : ∀ i ∈ Finset.range p, (∑ j ∈ Finset.range p, ∑ k ∈ Finset.range vt.length, f i j k) =
+        ∑ k ∈ Finset.range vt.length, ∑ j ∈ Finset.range p, f i j k := fun i _ => Finset.sum_comm
+    rw [Finset.sum_congr rfl this, Finset.sum_comm]
+  have h3 : ∀ k ∈ Finset.range vt.length, (∑ i ∈ Finset.range p, ∑ j ∈ Finset.range p, f i j k) =
+      ((s.getD k 0 * s.getD k 0) * (c / maxS (s.getD a 0) floor) * (c / maxS (s.getD b 0) floor) / m) *
+        ((if a = k then 1 else 0) * (if k = b then 1 else 0)) := by
+    intro k hk
+    rw [← horth a k ha (Finset.mem_range.mp hk), ← horth k b (Finset.mem_range.mp hk) hb, Finset.sum_mul_sum,
+      Finset.mul_sum]
+    apply Finset.sum_congr rfl; intro i _
+    rw [Finset.mul_sum]
+    apply Finset.sum_congr rfl; intro j _
+    simp only [f]; ring
+  rw [h1, h2', Finset.sum_congr rfl h3]
+  by_cases hab : a = b
+  · subst hab
+    rw [if_pos rfl, Finset.sum_eq_single a]
+    · simp only [if_true, mul_one]
+      have hd := (hdpos a).ne'
+      have hm0 := hmpos.ne'
+      field_simp
+      rw [← hcc]; ring
+    · intro k _ hka
+      rw [if_neg (Ne.symm hka)]; simp
+    · intro h; exact absurd (Finset.mem_range.mpr ha) h
+  · rw [if_neg hab]
+    apply Finset.sum_eq_zero
+    intro k _
+    by_cases hak : a = k
+    · subst hak; rw [if_neg hab]; simp
+    · rw [if_neg hak]; simp
+
+end pca
+
 end LinfaSpec.Proofs.Scaling
